@@ -769,7 +769,7 @@ func (st *inlineState) instantiate(pk *packagesPkg, call *ast.CallExpr, h *FuncI
 					continue
 				}
 				y, isVar := info.Uses[id].(*types.Var)
-				if !isVar || y.IsField() || !freshSet[y] || isSigObj(info, h, fresh, y) {
+				if !isVar || y.IsField() || !freshSet[y] || isParamObj(info, h, fresh, y) {
 					bad[j] = true
 					continue
 				}
@@ -781,9 +781,29 @@ func (st *inlineState) instantiate(pk *packagesPkg, call *ast.CallExpr, h *FuncI
 			return true
 		})
 		used := map[types.Object]bool{}
+		rename := func(y, x types.Object) {
+			ast.Inspect(body, func(nn ast.Node) bool {
+				if id, isID := nn.(*ast.Ident); isID {
+					if info.Uses[id] == y {
+						info.Uses[id] = x
+						id.Name = x.Name()
+					}
+					if info.Defs[id] == y {
+						info.Defs[id] = x
+						id.Name = x.Name()
+					}
+				}
+				return true
+			})
+		}
 		for j := range resObjs {
 			if lhsObjs[j] == nil {
 				continue
+			}
+			if freshSet[resObjs[j]] && !used[resObjs[j]] {
+				// a named result of the helper IS the caller's variable of that position
+				used[resObjs[j]] = true
+				rename(resObjs[j], lhsObjs[j])
 			}
 			resObjs[j] = lhsObjs[j]
 			if bad[j] || len(cands[j]) != 1 {
@@ -1399,3 +1419,22 @@ func isSigObj(info *types.Info, h *FuncInfo, fresh map[types.Object]types.Object
 
 // the fresh objects of the copy made last (for unifyResults, which runs right after instantiate)
 var lastFresh, lastParams map[types.Object]bool
+
+
+// isParamObj: y is the fresh copy of a parameter or of the receiver of h (not of a named result).
+func isParamObj(info *types.Info, h *FuncInfo, fresh map[types.Object]types.Object, y types.Object) bool {
+	chk := func(fl *ast.FieldList) bool {
+		if fl == nil {
+			return false
+		}
+		for _, f := range fl.List {
+			for _, nm := range f.Names {
+				if o := info.Defs[nm]; o != nil && fresh[o] == y {
+					return true
+				}
+			}
+		}
+		return false
+	}
+	return chk(h.Decl.Recv) || chk(h.Decl.Type.Params)
+}
